@@ -19,8 +19,24 @@ let (fixr, fixrc, fxc) =
   | Some f when String.length f >= 3 -> (f.[0] = '1', f.[1] = '1', f.[2] = '1')
   | _ -> (false, false, false)
 
+(* Sizes are unary in the extracted model, and the model only COMPARES a requested size with the largest request the allocator serves
+   (Model.refuses cap n).  The real cap is TabSize[511] / sizeof(T) elements (8054880 / 4 = 2013720 for int): the driver represents it by
+   cap_model = 1000 and every requested size above the real cap by cap_model + 1; all other sizes in the streams are far below 1000
+   (checked: failwith otherwise).  This is glue of the driver, not part of the model. *)
+let cap_model = 1000
+let cap_nat : nat = ni cap_model          (* built once: unary *)
+let big_nat : nat = ni (cap_model + 1)
+let cur_elsize = ref 4
+let real_cap () : int = (iz (List.fold_left (fun _ x -> x) (zi 0) !tab)) / max 1 !cur_elsize
+let sz (n : int) : nat =
+  if n > real_cap () then big_nat
+  else if n > cap_model then failwith "size between cap_model and the real cap: not representable by the driver"
+  else ni n
+(* one operation with its error paths (Model.step_x in the statement order of the code, early = false) on the pool *)
+let xstep fx elsize sc o = cstep_x false cap_nat fx !tab elsize sc o
+
 let defect_code = function
-  | DDoubleDec -> 1 | DWrap -> 2 | DNullCnt -> 3 | DNoCopyPsz -> 4 | DStale -> 5 | DSelfLog -> 6 | DDangling -> 7 | DOutOfRange -> 8
+  | DDoubleDec -> 1 | DWrap -> 2 | DNullCnt -> 3 | DNoCopyPsz -> 4 | DStale -> 5 | DSelfLog -> 6 | DDangling -> 7 | DOutOfRange -> 8 | DRefused -> 9
 
 let parse_fx s = { fx_realloc = s.[0] = '1'; fx_nocopy = s.[1] = '1'; fx_selflog = s.[2] = '1' }
 
@@ -28,17 +44,17 @@ let parse_fx s = { fx_realloc = s.[0] = '1'; fx_nocopy = s.[1] = '1'; fx_selflog
 let parse_op (t : string) : op =
   let args = List.map int_of_string (String.split_on_char ',' (String.sub t 1 (String.length t - 1))) in
   match t.[0], args with
-  | 'B', [h; n; v] -> OBuild (ni h, ni n, zi v)
+  | 'B', [h; n; v] -> OBuild (ni h, sz n, zi v)
   | 'W', [h; s] -> OWithCopy (ni h, ni s)
   | 'N', [h; s] -> ONoCopy (ni h, ni s)
   | 'L', [h; s] -> OLogcopy (ni h, ni s)
   | 'C', [h; s] -> OCopy (ni h, ni s)
-  | 'A', [h; n] -> OAllocate (ni h, ni n)
-  | 'R', [h; n] -> OReallocate (ni h, ni n)
+  | 'A', [h; n] -> OAllocate (ni h, sz n)
+  | 'R', [h; n] -> OReallocate (ni h, sz n)
   | 'P', [h; v] -> OPushBack (ni h, zi v)
   | 'D', [h] -> ODestroy (ni h)
   | 'X', [h; k; v] -> OWrite (ni h, ni k, zi v)
-  | 'V', [h; n] -> OReserve (ni h, ni n)
+  | 'V', [h; n] -> OReserve (ni h, sz n)
   | _ -> failwith ("bad op " ^ t)
 
 (* driver-level glue: drop shadowed bindings of an association list (identity for Model.get) *)
@@ -107,7 +123,8 @@ let exec fx elsize nh (ops : op list) : (int * int) option * state =
   let rec go s k = function
     | [] -> (None, s)
     | o :: rest ->
-      (match cstep fx !tab elsize (s, !pool) o with
+      (match xstep fx elsize (s, !pool) o with
+       | ((s1, c1), Some DRefused) -> pool := c1; go s1 (k + 1) rest     (* GivError caught by the caller: the sequence goes on with what the error path left *)
        | (_, Some DOutOfRange) -> go s (k + 1) rest        (* outside the documented precondition i < size: skipped on both sides *)
        | (_, Some d) -> (Some (k, defect_code d), s)      (* the defective call is not executed *)
        | ((s1, c1), None) -> pool := c1; go s1 (k + 1) rest) in
@@ -119,7 +136,8 @@ let cmd_seq fx elsize addr nh (toks : string list) : string =
   let rec go s k = function
     | [] -> s
     | o :: rest ->
-      (match cstep fx !tab elsize (s, !pool) o with
+      (match xstep fx elsize (s, !pool) o with
+       | ((s1, c1), Some DRefused) -> pool := c1; Buffer.add_string b ("| " ^ show_obs addr s1 !pool nh); go s1 (k + 1) rest
        | (_, Some DOutOfRange) -> Buffer.add_string b ("| " ^ show_obs addr s !pool nh); go s (k + 1) rest
        | (_, Some d) -> Buffer.add_string b (Printf.sprintf "| df=%d " (defect_code d)); s
        | ((s1, c1), None) ->
@@ -145,13 +163,13 @@ let alphabet nh (sizes : int list) : aop list =
   List.rev !l
 let op_of (a : aop) (k : int) : op =
   match a.kind with
-  | 'B' -> OBuild (ni a.h, ni a.arg, zi (if k mod 2 = 1 then 0 else 100 * (k + 1)))
+  | 'B' -> OBuild (ni a.h, sz a.arg, zi (if k mod 2 = 1 then 0 else 100 * (k + 1)))
   | 'W' -> OWithCopy (ni a.h, ni a.arg) | 'N' -> ONoCopy (ni a.h, ni a.arg)
   | 'L' -> OLogcopy (ni a.h, ni a.arg) | 'C' -> OCopy (ni a.h, ni a.arg)
-  | 'A' -> OAllocate (ni a.h, ni a.arg) | 'R' -> OReallocate (ni a.h, ni a.arg)
+  | 'A' -> OAllocate (ni a.h, sz a.arg) | 'R' -> OReallocate (ni a.h, sz a.arg)
   | 'P' -> OPushBack (ni a.h, zi (100 * (k + 1) + 7))
   | 'X' -> OWrite (ni a.h, ni (k mod 2), zi (100 * (k + 1) + 3 + 16 * (k mod 5)))
-  | 'V' -> OReserve (ni a.h, ni a.arg)
+  | 'V' -> OReserve (ni a.h, sz a.arg)
   | _ -> ODestroy (ni a.h)
 (* handles are named in order of first use *)
 let used_after mx (a : aop) : int option =
@@ -334,8 +352,10 @@ let () = run_lines (fun toks ->
   match toks with
   | "tab" :: vs -> tab := List.map z_of_string vs; "ok " ^ string_of_int (List.length vs)
   | "seq" :: fx :: es :: addr :: nh :: ops ->
+    cur_elsize := int_of_string es;
     cmd_seq (parse_fx fx) (zi (int_of_string es)) (addr = "1") (int_of_string nh) ops
   | "enum" :: fx :: es :: addr :: nh :: sizes :: l :: prefix ->
+    cur_elsize := int_of_string es;
     cmd_enum (parse_fx fx) (zi (int_of_string es)) (addr = "1") (int_of_string nh)
       (List.map int_of_string (String.split_on_char ',' sizes)) (int_of_string l) prefix
   | "rcdirty" :: sizes :: [] ->
